@@ -166,7 +166,9 @@ class Contract:
         self.lemmas = list(spec.pop("lemmas", []))      # [(lemma name, param names...)] instantiated before the ensures are checked
         self.effects = spec.pop("effects", None)        # callable(interp, env): havoc what the call modifies (before ensures are assumed)
         self.variant = spec.pop("variant", None)
-        self.env = dict(spec.pop("env", {}))
+        self.env = spec.pop("env", None)
+        if self.env is None:
+            self.env = {}
         self.notes = spec.pop("notes", "")
         self.verify_body = spec.pop("verify", True)
         self.trusted = spec.pop("trusted", False)       # assumed contract on something we cannot verify
@@ -305,6 +307,12 @@ class Registry:
         else:
             pre = z3.And([sym.truth(self.eval_clause(interp, r, c, env)) for r in c.requires]) \
                 if c.requires else z3.BoolVal(True)
+        # termination of recursion: the variant decreases at a recursive call of the function being verified
+        if c.variant and ctx.ghost.get("verifying") is c and not ctx.spec_mode and "variant0" in ctx.ghost:
+            v = self.eval_clause(interp, c.variant, c, env)
+            v0 = ctx.ghost["variant0"]
+            ctx.oblige("variant/%s" % c.short, z3.And(sym.lift(v) >= 0, sym.lift(v) < sym.lift(v0)),
+                       clause="variant %s decreases at the recursive call" % c.variant)
         # exceptional behaviour
         if c.raises and not ctx.spec_mode:
             for cond, exc in c.raises:
